@@ -178,7 +178,8 @@ def check_numeric(field, n, value, out):
     elif field.comma and not field.expo and len(digits_ip) > 3:
         bad.append(('comma', 'field %r: %r lacks thousands commas' % (field.spec, out)))
     # ---- exponential form: digits left-justified over the positions the field gives ----------------
-    if field.expo and info['overflow']:
+    if field.expo and info['overflow'] and not (field.dollar and neg and not field.plus_lead and not field.trail):
+        # (a negative number in a $ field without a sign position: the manual rules that combination out)
         # % only when the number does not fit: an exponential form can always shed digits left of the
         # point, so it fits whenever sign + $ + one mantissa digit (or the decimals) + exponent part fit
         least = ((1 if (neg and not field.plus_lead and not field.trail) else 0) + (1 if field.plus_lead else 0) +
